@@ -163,6 +163,8 @@ def case_fn(c):
 
 def main():
     chk = Check("C10", "other")
+    # who may write the history of a delayed model: the adaptive DDE solvers change it only through DDEHistory.update, unconditionally per accepted step
+    chk.run_frames()
     # deductive core: the history object is the piecewise-linear interpolant with constant pre-history (DDEHistory contracts), and
     # the fixed-step loops append ((i+1)*dt, y_{i+1}) after every step (DDE variants of the solver-loop contracts)
     from checks.c03 import solver_fallback
